@@ -95,10 +95,14 @@ def rich_newick_docs(draw, max_taxa=6, max_trees=4, recase=False):
 
 
 @st.composite
-def rich_nexus_docs(draw, max_taxa=5, max_trees=3, max_blocks=3, max_chars=6, recase=False, taxa=None):
-    # taxa: None = TAXA block drawn; True / False = always / never written
-    ntax = draw(st.integers(1, max_taxa))
-    labels = draw(docs.label_sets(ntax))
+def rich_nexus_docs(draw, max_taxa=5, max_trees=3, max_blocks=3, max_chars=6, recase=False, taxa=None, labels=None):
+    # taxa: None = TAXA block drawn; True / False = always / never written.  labels: the taxon labels to use
+    if labels is None:
+        ntax = draw(st.integers(1, max_taxa))
+        labels = draw(docs.label_sets(ntax))
+    else:
+        labels = list(labels)
+        ntax = len(labels)
     label_texts = [draw(docs.nexus_label_text(l)) for l in labels]
     taxa_block = draw(st.integers(0, 2)) > 0 if taxa is None else taxa
     out = "#NEXUS\n"
